@@ -320,7 +320,7 @@ fn wait_quiescent(expected: usize, submitted: usize, c: &Counters) -> Result<(),
             let markers = st.events.iter().filter(|e| e.ev == "Marker_Send").count();
             let respawns = st.events.iter().filter(|e| e.ev == "Rec_Respawn").count();
             markers == respawns
-                && st.events.iter().enumerate().filter(|(_, e)| e.ev == "Rec_Respawn").all(|(i, e)| st.events[i + 1..].iter().any(|f| f.th == e.a))
+                && st.events.iter().enumerate().filter(|(_, e)| e.ev == "Rec_Respawn").all(|(i, e)| st.events[i + 1..].iter().any(|f| f.th == e.a && f.ev == "Worker_Loop"))
         };
         let entered = (1..=submitted).all(|t| c.ran(t) >= 1);
         let threads = total_threads();
